@@ -110,15 +110,23 @@ func (r RemoveIntersections) processStruct(_ *Visitor, _ *ast.Schema, def ast.Ty
 	str := def.AsStruct()
 	for i, field := range str.Fields {
 		if field.Type.IsRef() {
-			if obj, ok := r.objectsToRemove[field.Type.AsRef().ReferredType]; ok {
-				def.AsStruct().Fields[i] = ast.NewStructField(field.Name, ast.NewRef(obj.SelfRef.ReferredPkg, obj.SelfRef.ReferredType), ast.Comments(obj.Comments))
-			}
-			if obj, ok := r.arraysToFix[field.Type.AsRef().ReferredType]; ok {
-				def.AsStruct().Fields[i] = ast.NewStructField(field.Name, ast.NewArray(obj.Type.AsArray().ValueType), ast.Comments(obj.Comments))
+			// only the type of the field changes: the field stays required or not,
+			// nullable or not, and keeps its default.
+			retype := func(newType ast.Type) {
+				newType.Nullable = field.Type.Nullable
+				newType.Default = field.Type.Default
+				for hint, value := range field.Type.Hints {
+					newType.Hints[hint] = value
+				}
+
+				def.AsStruct().Fields[i].Type = newType
 			}
 
-			for hint, value := range field.Type.Hints {
-				def.AsStruct().Fields[i].Type.Hints[hint] = value
+			if obj, ok := r.objectsToRemove[field.Type.AsRef().ReferredType]; ok {
+				retype(ast.NewRef(obj.SelfRef.ReferredPkg, obj.SelfRef.ReferredType))
+			}
+			if obj, ok := r.arraysToFix[field.Type.AsRef().ReferredType]; ok {
+				retype(ast.NewArray(obj.Type.AsArray().ValueType))
 			}
 		}
 	}
